@@ -374,6 +374,50 @@ theorem mn_bytes_new_ok {m : Mode} {file : Array Word} {offset : Nat} {r : Mappe
             injection h with h; subst h
             exact ⟨hlt, rfl, rfl, rfl, a, b, e, rfl, h2, h3, by omega⟩
 
+/-- `MappedStr::new` as translated: the translated `MappedBytes::new` followed by the UTF-8 test of the payload -/
+theorem mapped_str_new_eq_bytes (m : Mode) (valid : List UInt8 → Bool) (file : Array Word) (offset : Nat) :
+    gen_MappedStr_new m valid file offset
+      = (gen_MappedBytes_new m file offset).bind
+          (fun r => if valid (payloadBytes r.data) then ok r else fault (.err .invalid)) := by
+  unfold gen_MappedStr_new gen_MappedBytes_new
+  by_cases h : offset ≥ file.size
+  · simp only [h, decide_true, if_true]; rfl
+  · have hlt : offset < file.size := by omega
+    simp only [h, decide_false, if_false, mn_bind_def, Bool.false_eq_true]
+    rw [mn_getC_lt hlt]
+    simp only [mn_obind_ok, mn_gen_bytes_to_words]
+    cases addM m offset 1 with
+    | fault e => rfl
+    | ok a =>
+      simp only [mn_obind_ok]
+      cases bytesToWords m (rd file offset).toNat with
+      | fault e => rfl
+      | ok b =>
+        simp only [mn_obind_ok]
+        cases addM m a b with
+        | fault e => rfl
+        | ok e =>
+          simp only [mn_obind_ok]
+          by_cases h2 : e > file.size
+          · simp only [h2, decide_true, if_true]; rfl
+          · simp only [h2, decide_false, if_false, Bool.false_eq_true]
+            by_cases hv : valid (payloadBytes ((rd file offset).toNat, List.take (((rd file offset).toNat + 7) / 8) (List.drop (offset + 1) file.toList))) = true
+            · simp [hv, mn_obind_ok, Outcome.bind]
+            · simp [hv, mn_obind_ok, Outcome.bind]
+
+/-- … hence the model's string view: the same acceptance, the same faults, the view of the accepted payload -/
+theorem mapped_str_view_eq (m : Mode) (valid : List UInt8 → Bool) (file : Array Word) (offset : Nat) :
+    View.str m valid file offset = (gen_MappedStr_new m valid file offset).bind (fun r => ok (mn_bytesView r)) := by
+  rw [mapped_str_new_eq_bytes]
+  unfold View.str
+  rw [mapped_bytes_view_eq]
+  cases hg : gen_MappedBytes_new m file offset with
+  | fault e => rfl
+  | ok r =>
+    by_cases hv : valid (List.take r.data.1 (toBytes r.data.2)) = true
+    · simp [hv, Outcome.bind, mn_bytesView, payloadBytes, mn_bind_def]
+    · simp [hv, Outcome.bind, mn_bytesView, payloadBytes, mn_bind_def]
+
 theorem mapped_bytes_map_len_eq' (m : Mode) (r : MappedSliceR) :
     gen_MappedBytes_map_len m r = (bytesToWords m r.data.1).bind (fun t => addM m t 1) := by
   unfold gen_MappedBytes_map_len
